@@ -21,7 +21,7 @@ from lib import coq_bool, coq_list, coq_nat, coq_string
 COQ_TARGETS = ["theories/Proofs/SlottedLemmas.vo", "theories/Proofs/SlottedStateLemmas.vo", "theories/Model/SlottedEq.vo"]
 THEOREMS = ["C19_never_raises", "C19_stack_empty_after_success", "C19_stack_restored", "C19_slots_exact",
             "C19_slots_own_fields", "C19_chain", "C19_no_dict", "C19_weakref_iff", "C19_preserved", "C19_nothing_else",
-            "C19_defaults", "C19_super_safe", "C19_setstate_restores", "C19_refuted_setstate_bare_dict", "C19_refuted_zero_arg_super", "C19_full_is_false", "C19_refuted_weakref_base",
+            "C19_defaults", "C19_super_safe", "C19_setstate_restores", "C19_setstate_fieldless", "C19_refuted_zero_arg_super", "C19_full_is_false", "C19_refuted_weakref_base",
             "C19_refuted_stack_leak", "C19_refuted_inherited_hooks"]
 MOD_O, MOD_S, MOD_C = "verif_c19_orig", "verif_c19_slot", "verif_c19_corr"
 
